@@ -9,6 +9,8 @@ use std::future::poll_fn;
 use std::rc::Rc;
 use std::task::Poll;
 
+pub const WATCHDOG_MSG: &str = "HARNESS-WATCHDOG: I/O poll budget of the transport exhausted";
+
 #[derive(Clone, Debug, PartialEq, Eq)]
 pub enum IoEvent {
     /// `n` bytes accepted by `write` (they are `out[off..off+n]`).
@@ -90,6 +92,8 @@ pub struct Transport {
     pub n_flush: u64,
     /// Every poll of any I/O future, completed or not.
     pub touches: u64,
+    /// Count-based watchdog: the case is aborted when one transport sees this many I/O polls.
+    pub budget: u64,
     pub last_pending: PendingWhy,
     pub events: Log,
 }
@@ -114,6 +118,7 @@ impl Transport {
             n_write: 0,
             n_flush: 0,
             touches: 0,
+            budget: 400_000,
             last_pending: PendingWhy::None,
             events,
         }
@@ -157,6 +162,12 @@ impl Transport {
     pub fn disarm(&mut self) {
         self.armed = false;
         self.last_pending = PendingWhy::None;
+    }
+
+    fn check_budget(&self) {
+        if self.touches > self.budget {
+            panic!("{}", WATCHDOG_MSG);
+        }
     }
 
     fn take_fault(&mut self) -> Option<Fault> {
@@ -203,6 +214,7 @@ impl Read for SimIo {
         poll_fn(|_cx| {
             let mut s = self.st.borrow_mut();
             s.touches += 1;
+            s.check_budget();
             s.last_pending = PendingWhy::None;
             s.release_due();
             if buf.is_empty() {
@@ -253,6 +265,7 @@ impl Write for SimIo {
         poll_fn(|_cx| {
             let mut s = self.st.borrow_mut();
             s.touches += 1;
+            s.check_budget();
             s.last_pending = PendingWhy::None;
             if buf.is_empty() {
                 return Poll::Ready(Ok(0));
@@ -283,6 +296,7 @@ impl Write for SimIo {
         poll_fn(|_cx| {
             let mut s = self.st.borrow_mut();
             s.touches += 1;
+            s.check_budget();
             s.last_pending = PendingWhy::None;
             if s.gate() {
                 return Poll::Pending;
